@@ -43,6 +43,22 @@ CLAIMS = {
    text="Lean theorems over every schedule of the dispatcher/pool model: open handles <= queue capacity + workers + 1 whatever the number of files (parfile: <= workers); with capacity 128 and <= 64 workers 2*handles+16 < 1024; the bound is attained in the model. Tied to /repo by runs over 400..3000 (thorough 20000) files under RLIMIT_NOFILE=1024 with the supervisor counting open descriptors: exit 0, measured peak <= model bound, and with stalled pool threads the peak reaches exactly the capacity-dependent level 2*(128+workers+1) (so a changed queue length or a leaked handle is a disagreement).",
    note="Lean kernel, standard axioms; descriptors = 2 per handle + constant; model thread structure transcribed from the source; sampling of schedules.",
    tech="Lean 4 theorems (Arc-count invariant, all schedules) + measured descriptor peaks under rlimit", ref='§3 C20'),
+ 'C03': dict(
+   text="Lean theorems on the namespace model: a copy whose destination designates the source itself (any spelling, symbolic link) is refused before anything is created, and rejected up front per source; a failed or refused operation is a no-op; FRAME: an operation on a plain target (absolute, no symbolic link at or above it) changes nothing that is neither at/below its target nor an ancestor's entry list, for all four operation kinds incl. create_dir_all, and ancestors stay directories — for every operation list, hence every prefix (kill point). Tied to /repo by an alias table (./f, own directory, dir/../f, symlink, hard link, directory aliases, link back into the source, special files) x position x driver, SIGKILL before/after every mutating call and EIO/ENOSPC (thorough: six errnos) at every mutating call, comparing content, kind, mode, owner, mtime, xattrs, link count of every source and bystander.",
+   note="Lean kernel, axioms propext/Quot.sound only; the model has no hard links (the real guard compares device+inode; exercised by the runs) and no permissions; outside PlainTarget the code writes through destination symlinks (finding F13, reported under C02).",
+   tech="Lean 4 theorems (frame/invariant over a file-system namespace model) + alias table, kill-point and fault enumeration", ref='§3 C03'),
+ 'C08': dict(
+   text="Lean theorems: every operation executed on a target that does not exist (lstat) alters no existing entry — directories stay directories, everything else is identical — and so does every run and every prefix of a run of such operations (invariant: any kill point); with no-clobber the walker emits NO operation for an entry whose target exists (file, directory, special, live or dangling link) but stops, and a stopped walk exits non-zero. Stated gap: that the probe made at walk time still holds at execution time (FreshRun) is assumed. Tied to /repo by pre-populated destinations with a colliding entry of each kind at a random depth/position, both drivers, a third under perturbed schedules: pre-existing entries compared before/after, no successful mutating call on a pre-existing entry in the trace, exit class and end state vs the model.",
+   note="Lean kernel, axioms propext/Quot.sound only; FreshRun is a hypothesis (fails only for two sources onto one target — finding F10 — or external interference); sampling.",
+   tech="Lean 4 theorems (preservation invariant over the namespace model) + collision enumeration with trace check", ref='§3 C08'),
+ 'C13': dict(
+   text="Lean theorems: a fully resolved path never designates a symbolic link; with dereference the walk emits no link operation for any tree (links to files, directories, chains of any length); operations other than link operations never create a symbolic link anywhere (link count of the whole file system does not grow); a dangling link makes the walk fail and a failed walk exits non-zero; a cyclic link does not resolve (ELOOP). Tied to /repo by trees with links to files/directories/links (chains up to 38), relative/absolute, inside/outside, dangling, self-loop, 2-cycle, ancestor loop, both drivers: real end state vs the model, and an independent resolver as oracle (no link left, every link replaced by its target's content).",
+   note="Lean kernel, axioms propext/Quot.sound; well-formedness hypotheses (root not a link, cwd a directory) stated; walkdir's follow_links/loop detection modelled, not verified.",
+   tech="Lean 4 theorems (induction on resolution fuel and on the tree) + end-state correspondence", ref='§3 C13'),
+ 'C16': dict(
+   text="Lean theorems: validation is a function of a read-only view of the file system, so a rejected invocation leaves it untouched and exits non-zero (by construction); and each class IS rejected whatever the other arguments are and wherever the offending one stands: no source, missing source, directory without recursive, several sources to a non-directory, directory onto an existing non-directory (per source, against its own target), source identical to destination (textually or the same object via spelling/symlink), --force with --no-clobber, malformed or empty glob. Tied to /repo by an exhaustive table class x position {first, middle, last} x destination state x driver with whole-sandbox snapshots, valid twins, and unknown option values (usage errors).",
+   note="Lean kernel, axioms propext/Quot.sound; clap's parsing (unknown option values, non-UTF-8 arguments) is observed, not modelled.",
+   tech="Lean 4 theorems (decision logic of the validator) + exhaustive rejection table", ref='§3 C16'),
 }
 PENDING = "check not built yet in this session (planned: Lean model + theorems + correspondence, see DESIGN.md §3); not claimed until it runs"
 ALL = [f'C{i:02d}' for i in range(1, 21)]
